@@ -108,6 +108,21 @@ fn rejected_source(t: &mut Tape, base: &str) -> (String, &'static str) {
 /// The result of compiling a source does not depend on what the same thread compiled (and was
 /// refused) before.
 fn s_history(t: &mut Tape, ctx: &mut Ctx) -> Result<(), Failure> {
+    // each case on a thread of its own: state that the library keeps per thread must not leak
+    // from one case into the next, or a failure would not replay from its tape
+    std::thread::scope(|s| {
+        let h = std::thread::Builder::new().stack_size(8 << 20).spawn_scoped(s, || history_case(t, ctx)).map_err(|e| Failure::internal(format!("cannot start a thread: {e}")))?;
+        match h.join() {
+            Ok(r) => r,
+            Err(p) => {
+                let msg = p.downcast_ref::<String>().cloned().or_else(|| p.downcast_ref::<&str>().map(|s| s.to_string())).unwrap_or_default();
+                Err(Failure::internal(format!("history thread panicked: {msg}")))
+            }
+        }
+    })
+}
+
+fn history_case(t: &mut Tape, ctx: &mut Ctx) -> Result<(), Failure> {
     let g = gen::generate(t, GenCfg { params: false, ..GenCfg::small() });
     let style = Style::from_seed(t.next() as u64);
     let text = render::render(&g.prog, &style);
